@@ -263,6 +263,8 @@ void env_define_var_with_type_info(Environment *env, const char *name, Type type
     sym.def_line = 0;     /* Will be set by type checker if needed */
     sym.def_column = 0;
     sym.scope_closed = false;
+    sym.scope_end_line = 0;
+    sym.scope_end_column = 0;
 
     /* WORKAROUND: Check if symbol already exists and preserve/update metadata */
     /* This handles a bug where symbols are added multiple times during type-checking.
@@ -320,6 +322,13 @@ Symbol *env_get_var(Environment *env, const char *name) {
     return NULL;
 }
 
+/* The scope that declared the symbol has ended before (line, column) */
+static bool symbol_scope_ended_at(const Symbol *sym, int line, int column) {
+    if (sym->scope_end_line <= 0) return false;
+    if (line > sym->scope_end_line) return true;
+    return line == sym->scope_end_line && column > 0 && column >= sym->scope_end_column;
+}
+
 Symbol *env_get_var_visible_at(Environment *env, const char *name, int line, int column) {
     if (!env || !name) return NULL;
     if (line <= 0) return env_get_var(env, name);
@@ -350,6 +359,7 @@ Symbol *env_get_var_visible_at(Environment *env, const char *name, int line, int
 
         if (sline > line) continue;
         if (sline == line && column > 0 && scol > column) continue;
+        if (symbol_scope_ended_at(sym, line, column)) continue;
 
         return sym;
     }
@@ -362,6 +372,7 @@ Symbol *env_get_var_visible_at(Environment *env, const char *name, int line, int
         if (safe_strcmp(sym->name, name) != 0) continue;
 
         if (sym->def_line > 0) continue;
+        if (symbol_scope_ended_at(sym, line, column)) continue;
 
         best_unknown = sym;
         break;
